@@ -377,7 +377,8 @@ theorem runWith_scan (inner : Inner) (mode : Mode) (c : Nat) (cb : Bytes) (opts 
       (some (scanAnswer (s.dbAt (s.conn c).db) cb opts), afterScan s (s.conn c).db cb opts) := by
   have hreg : Cmd.regular "scan" = none := rfl
   have hname : scanSig.name = "scan" := rfl
-  unfold runWith
+  rw [runWith_not_refused _ mode c scanSig _ false (Sys.refuses_of_unsubscribed scanSig hpub)]
+  unfold runWithBody
   simp only [bind, StateT.bind, getConn_run, getDb_run', hname, hreg, apply_scan scanSig rfl rfl, setDb_run',
     setDbS_dbAt, gate_none scanSig (Or.inr trivial) _ hpub]
   unfold scanAnswer afterScan scanReaches
@@ -1146,7 +1147,7 @@ theorem runCommand_kscan (K : KScan) (hK : K.Ok) (mode : Mode) (c : Nat) (key cb
   have hns : scriptNames.contains K.sig.name = false := hK.notScript
   rw [hns]
   simp only [Bool.false_eq_true, if_false]
-  rw [runWith_regular_run _ mode c K.sig _ false (body := K.body) hK.regular]
+  rw [runWith_regular_run _ mode c K.sig _ false (body := K.body) hK.regular s (Sys.refuses_of_unsubscribed K.sig hpub)]
   have hg : runGate K.sig false (decide ((s.conn c).pubsub > 0)) = none := by
     rw [hpub]; simp [runGate, KScan.sig]
   have ho : s.regularOut c K.sig K.body (key :: cb :: opts) false =
